@@ -17,6 +17,14 @@ try:
 except Exception as _ex:  # the generator itself broke: same fallback as an unparseable source
     GEN_STATUS = "unparsed generator-failed: %s" % str(_ex)[:200]
     GEN_PRIMS, GEN_WINDOW_RUNS = [], []
+# round 5: the BODIES of modular/{add,repr,reducer,div,pow}.rs (in-place kernels of the multi-word ring, is_valid, Clone, Reducer helpers,
+# tail of inv_large, window read of large::pow) -> coq/gen/ModRingBodiesGen.v, proved equal to the hand models (C13_gen_bodies, C13_gen_clone,
+# C13_gen_reducer, C13_gen_inv_tail, C13_gen_pow_window); same fallback rules
+try:
+    import translate_c13_r5
+    GEN5_STATUS = translate_c13_r5.generate(core.REPO, os.path.join(core.COQ, "gen"))
+except Exception as _ex:
+    GEN5_STATUS = "unparsed generator-failed: %s" % str(_ex)[:200]
 
 # A run against a scratch checkout (VERIF_REPO) with the shared Coq tree must not leave the fragment of that checkout
 # behind for other builds: regenerate from /repo when the process ends.
@@ -28,23 +36,118 @@ if os.path.realpath(core.REPO) != os.path.realpath("/repo") and "VERIF_COQ" not 
             translate_c13_r3.generate("/repo", os.path.join(core.COQ, "gen"))
         except Exception:
             pass
+        try:
+            translate_c13_r5.generate("/repo", os.path.join(core.COQ, "gen"))
+        except Exception:
+            pass
 
     atexit.register(_restore_gen)
+
+
+def _verdict(line):
+    t = (line or "noverdict").split()
+    return (t[0] if t else "noverdict"), dict(x.split("=", 1) for x in t[1:] if "=" in x)
+
+
+W32_CASES = {"quick": 2600, "thorough": 40000}
+
+
+def gen_cases_w(rng, tier, n, wbits):
+    """the generators of this plug-in with every size counted in words of `wbits` bits (rings of one / two / three and more
+    32-bit words, normalisation shifts 0..31, operands at the 32-bit word-count boundaries)"""
+    global W
+    old = W
+    W = wbits
+    try:
+        out = gen_cases(rng, tier, n)
+    finally:
+        W = old
+    # the 300-word moduli around MIN_DWORD_GUESS_LEN cost 4x more on 32-bit word lists: keep a few
+    return out
+
+
+def _w32_phase(tier, seed, exes, oracle, hist, failures, nontrivial):
+    """round 5: the force_bits="32" build (Word = u32) against the SAME models evaluated at w = 32 (the oracle takes the word
+    size from the wb= token of the answer, C13_W for panics)"""
+    exe, out = core.harness_build(HARNESS_BIN, "w32")
+    if exe is None:
+        failures.append({"kind": "harness build failed", "config": "w32", "log": out[-1500:]})
+        return 0
+    rng = core.Rng(seed * 7919 + 13)
+    corpus = []
+    cp = os.path.join(core.ROOT, "corpus", "C13.txt")
+    if os.path.exists(cp):
+        corpus = [l.strip() for l in open(cp) if l.strip() and not l.startswith("#")]
+    # from_word / from_dword take the Word / DoubleWord of the build: corpus cases built for 64-bit words go through `new`
+    def fit(t):
+        f = t.split()
+        for k in (1, 2):
+            if len(f) > k + 1 and f[k] in ("w", "d") and f[0] not in ("new0",):
+                try:
+                    m = int(f[k + 1], 16)
+                except ValueError:
+                    continue
+                if (f[k] == "w" and m >= (1 << 32)) or (f[k] == "d" and m >= (1 << 64)):
+                    f[k] = "n"
+        return " ".join(f)
+    n = int(os.environ.get("C13_W32_CASES", W32_CASES.get(tier, 2600)))
+    texts = [fit(t) for t in corpus] + gen_cases_w(rng, tier, n, 32)
+    cases = list(enumerate(texts))
+    answers = core.run_sharded(exe, cases, case_timeout=CASE_TIMEOUT.get(tier, 30))
+    verdicts = core.run_sharded(oracle, [(i, "%s => %s" % (t, answers.get(i, "noanswer"))) for i, t in cases],
+                                case_timeout=120, env={"C13_W": "32"})
+    bad = {}
+    for i, t in cases:
+        v, kv = _verdict(verdicts.get(i))
+        op = t.split(" ", 1)[0]
+        a = answers.get(i) or "noanswer"
+        hist["BUILD:w32:op:" + op] = hist.get("BUILD:w32:op:" + op, 0) + 1
+        for key in ("asis", "cls", "path"):
+            if key in kv:
+                k2 = "BUILD:w32:%s:%s" % (key, kv[key])
+                hist[k2] = hist.get(k2, 0) + 1
+        if kv.get("nt") == "1":
+            nontrivial.append("w32 " + t)
+        why = None
+        if a.startswith("ok") and not a.endswith(" wb=32"):
+            why = "the w32 build does not report 32-bit words: " + a[-40:]
+        elif v != "pass":
+            why = "oracle: " + (verdicts.get(i) or "noverdict")[:300]
+        elif kv.get("asis") == "diff":
+            why = "model fidelity: an as-is model evaluated at w = 32 differs from the force_bits=32 build"
+        if why:
+            hist["BUILD:w32:violations"] = hist.get("BUILD:w32:violations", 0) + 1
+            if op not in bad:
+                bad[op] = {"kind": "other-build", "config": "w32", "case": t, "impl": a[:2000], "oracle": (verdicts.get(i) or "")[:300], "why": why,
+                           "replay": "build the harness with --cfg force_bits=\"32\" (core.CONFIGS w32), feed the case, judge with C13_W=32"}
+    failures.extend(bad.values())
+    return len(cases)
 
 
 def extra_phase(tier, seed, exes, oracle):
     word = GEN_STATUS.split(" ", 1)[0]
     prims_match = sorted(t for t, _ in GEN_PRIMS) == sorted(PRIMS) and all((PRIMS[t][0] < 0) == sg for t, sg in GEN_PRIMS)
+    word5 = GEN5_STATUS.split(" ", 1)[0] + ("-partly" if "unparsed=" in GEN5_STATUS else "")
+    hist = {"translator_c13_r3:ModRingGen:" + word: 1, "translator_c13_r5:ModRingBodiesGen:" + word5: 1, "into_ring_prims_generated=%d_match_generators=%s" % (len(GEN_PRIMS), prims_match): 1}
+    failures, nontrivial, evaluations = [], [], 0
+    if oracle and exes and os.environ.get("C13_NO_W32") is None:
+        evaluations = _w32_phase(tier, seed, exes, oracle, hist, failures, nontrivial)
     return {
-        "evaluations": 0,
-        "hist": {"translator_c13_r3:ModRingGen:" + word: 1, "into_ring_prims_generated=%d_match_generators=%s" % (len(GEN_PRIMS), prims_match): 1},
-        "nontrivial": [],
+        "evaluations": evaluations,
+        "hist": hist,
+        "nontrivial": nontrivial,
         "samples": [{"fragment": "coq/gen/ModRingGen.v (tools/translate_c13_r3.py from integer/src/modular/{pow,add,mul,repr,reducer,convert}.rs)",
                      "status": GEN_STATUS,
                      "tied_by": "C13_gen_window_len, C13_gen_pow_params, C13_gen_window_table, C13_gen_comparisons, C13_gen_units, C13_gen_into_ring_prims"
                                 if word == "ok" else "correspondence run only (source not parsed; committed copy marked STALE)",
-                     "window_runs_64bit_first": [list(r) for r in GEN_WINDOW_RUNS[:12]]}],
-        "failures": [],
+                     "window_runs_64bit_first": [list(r) for r in GEN_WINDOW_RUNS[:12]]},
+                    {"fragment": "coq/gen/ModRingBodiesGen.v (tools/translate_c13_r5.py over the parser of tools/translate_c01_r4.py, from "
+                                 "integer/src/modular/{add,repr,reducer,div,pow}.rs: negate / add / dbl / sub / sub_swap in place, ReducedLarge::is_valid, Clone for ReducedRepr, "
+                                 "reduce_once / reduce_negate / Reducer add dbl sub neg, tail of inv_large, window read of large::pow)",
+                     "status": GEN5_STATUS,
+                     "tied_by": "C13_gen_bodies, C13_gen_clone, C13_gen_reducer, C13_gen_inv_tail, C13_gen_pow_window" if GEN5_STATUS == "ok"
+                                else "functions reported unparsed keep their last good copy (marked STALE) and are tied by the correspondence run only"}],
+        "failures": failures,
     }
 
 
@@ -55,7 +158,7 @@ HARNESS_BIN = "c13"
 NCASES = {"quick": 12000, "thorough": 200000}
 CASE_TIMEOUT = {"quick": 30, "thorough": 120}
 
-LEVEL_TEXT = ("Machine-checked Coq theorems (100 pinned) at three levels. (1) Value level, every word size >= 2, every modulus >= 1, all "
+LEVEL_TEXT = ("Machine-checked Coq theorems (113 pinned) at three levels. (1) Value level, every word size >= 2, every modulus >= 1, all "
               "integers: construction of the ring, reduce for every size class and sign, + - * neg dbl sqr ==, the two exponentiation "
               "algorithms (binary method word by word; sliding window with a table of odd powers - proved generically for any carrier, "
               "every window length; exponent 0 and modulus 1 included), inverse, division, ring identity and the num_modular::Reducer "
@@ -83,21 +186,38 @@ LEVEL_TEXT = ("Machine-checked Coq theorems (100 pinned) at three levels. (1) Va
               "(C13_hrun_inv_src, C13_hrun_div_src, C13_hrun_gcd_probe) and the Reducer helpers on words (C13_hrun_rd_lin) - are proved equal "
               "to the specification for all inputs. Regenerated from the Rust sources on every run and proved over the generated "
               "definitions (C13_gen_*): window-length selection of large::pow, table size and first bit, comparison methods, long-product "
-              "switches, units, the list of primitive IntoRing impls.")
+              "switches, units, the list of primitive IntoRing impls. Round 5: (4) every run of the oracle is the instance with the WORD SIZE AS A "
+              "PARAMETER (ModRingWInst.v: value level, word lists + real kernels, inverse / division with the gcd code of the source, Reducer "
+              "helpers on words, clone_from) and is proved equal to the specification for EVERY word size w >= 8, every modulus and operand "
+              "(C13_wrun_value / _mixed / _reducer / _clone_from, C13_whrun_ring / _gcd_src / _rd_lin; at w = 64 they are the instances of "
+              "rounds 1-4 by computation, C13_wruns_at_64); the correspondence run evaluates them at the word size each build reports: 64, and "
+              "32 against the force_bits=\"32\" build (Word = u32: rings of one / two / three and more 32-bit words, normalisation shifts "
+              "0..31). (5) BODIES regenerated from the source on every run (tools/translate_c13_r5.py over the parser of "
+              "tools/translate_c01_r4.py -> coq/gen/ModRingBodiesGen.v) and proved EQUAL to the hand models for every word size, ring and "
+              "operand: negate / add / dbl / sub / sub_swap in place of modular/add.rs with their debug assertions, the zero guard and the "
+              "conditional correction steps, ReducedLarge::is_valid, Clone for ReducedRepr (clone_from sets ring AND content), "
+              "reduce_once / reduce_negate and Reducer::add / dbl / sub / neg of modular/reducer.rs, everything of div.rs::inv_large after the "
+              "extended gcd (the None exit, the shift back, the validity assertion, the sign line), the window read of "
+              "pow.rs::large::pow_nontrivial (C13_gen_bodies, C13_gen_clone, C13_gen_reducer, C13_gen_inv_tail, C13_gen_pow_window).")
 LEVEL_NOTE = ("Trusted: Coq kernel, extraction (FastZ.v directives), zarith, harness. No external function is left by contract. Modelled at "
               "value level only (not on word lists): the inside of gcd_ext_in_place - the word loops lehmer_step / lehmer_ext_step, the "
               "re-slicing of the cofactor buffers in the Euclidean step (C12 round 4 models and proves lehmer_step / the aligned leading "
               "words; it found and repaired in /repo 1be8c4c a defect of exactly that re-slicing, reachable through Reduced::inv, after "
               "this check's totality proof had shown that the cofactor order t0 > t1 does occur - the value-level model used here says "
-              "what the repaired code does), UBig + - << inside the Reducer helpers (C01); clone / clone_from at value level (the destination becomes the source: C13_clone_from). The word-level models were NOT run "
-              "against the force_bits=32 build (they are proved for every w >= 8 but executed at w = 64 only). Montgomery form: not used by "
+              "what the repaired code does), UBig + - << inside the Reducer helpers (C01); clone / clone_from at value level (the destination becomes the source: C13_clone_from). Round 5: the word-level "
+              "models ARE run against the force_bits=32 build (extra phase: 2600 cases generated with every size counted in 32-bit words + the "
+              "corpus, judged with the models at w = 32; the word size comes from the wb= token of each answer). Still hand-transcribed (tied by "
+              "the run only, not regenerated): mul_normalized / sqr_normalized / mul_in_place (buffer allocation, early return, the "
+              "product-length switch is regenerated as a fragment), the gcd dispatch of inv_large (its tail is regenerated), the window loop of "
+              "large::pow around the regenerated window read and window-length selection, rem_large / from_ubig, residue, "
+              "one; the Single / Double arms call num-modular (transcribed). Montgomery form: not used by "
               "dashu (plain division by the normalised divisor with a precomputed reciprocal) - nothing to model; Reduced::pow takes an "
               "unsigned exponent (no negative exponents), exponent 0 and modulus 1 are covered by C13_asis_pow / C13_run_pow. Primitive "
               "machine arithmetic (u128 widening multiplication, %, shifts) is taken at its mathematical meaning. Compared only (not "
               "proved): that the Rust code is what the models transcribe - 12000 generated + corpus cases per run against the "
               "specification and against ALL as-is instances (asis=same needs every one; path= says which ran, +gcd-word / gcd-dword / "
               "gcd-lehmer which extended-gcd branch); fragments the translator cannot parse fall back to this comparison alone.")
-TECHNIQUE = "Coq proof of value-level and word-level as-is models (representation invariant, refinement, generic windowed exponentiation, num-modular / C01 / C02 kernels transcribed, C12's Lehmer extended gcd proved total with bounded cofactors, fragments regenerated from the source) + extracted-spec correspondence run against three as-is instances"
+TECHNIQUE = "Coq proof of value-level and word-level as-is models (representation invariant, refinement, generic windowed exponentiation, num-modular / C01 / C02 kernels transcribed, C12's Lehmer extended gcd proved total with bounded cofactors, fragments regenerated from the source) + runs proved for every word size and executed at 64 and 32 bits + bodies of add.rs / repr.rs / reducer.rs regenerated and proved equal to the hand models + extracted-spec correspondence run against three as-is instances on two builds"
 RULE = ("cases = operation (every call form: by value / by reference / assigning, ConstDivisor::new / from_word / from_dword incl. a zero "
         "modulus, UBig / IBig / every primitive type, Reducer trait) x modulus from {1, 2, 2^k, 2^k+-1 at k = 63, 64, 65, 127, 128, 129, "
         "word-aligned and unaligned single / double / multi-word (3..33 words), even multi-word, low words zero} x operands of both signs "
@@ -115,8 +235,11 @@ RULE = ("cases = operation (every call form: by value / by reference / assigning
         "clone / clone_from histories (2.5 %): the destination previously in the same ring (another instance), in another ring of the same "
         "representation and word count with the same / another normalisation shift (2^255-19 vs 2^256-189 ...), of another word count, "
         "of another representation - then modulus(), residue(), == and a follow-up addition. "
+        "Round 5: the same generators with every size counted in 32-bit words (one / two / 3..33 words of 32 bits, top word of 1..32 bits "
+        "= normalisation shifts 0..31, operands at the 32-bit word-count boundaries) + the corpus run against the force_bits=32 build (2600 "
+        "cases in the quick tier), judged with the models at w = 32. "
         "A case is non-trivial when the oracle evaluated the Coq specification on it; distinct = distinct case texts.")
-EXPLANATION = ("Theorems (coq/props/C13.v, 100 pinned): for every word size >= 2 and every modulus m >= 1 the as-is model of "
+EXPLANATION = ("Theorems (coq/props/C13.v, 113 pinned): for every word size >= 2 and every modulus m >= 1 the as-is model of "
                "ConstDivisor::new/reduce/residue, + - * neg dbl sqr ==, pow, inv, div and of the Reducer impl returns the residue the "
                "mathematics demands (representation invariant raw = (x mod m) << shift preserved by every operation, residues in [0, m), "
                "inverse exactly for units, division = div_spec, different rings panic, a zero modulus is the DivideBy0 panic, no debug "
@@ -131,7 +254,11 @@ EXPLANATION = ("Theorems (coq/props/C13.v, 100 pinned): for every word size >= 2
                "source (window-length selection, comparison methods, product-length switches, units, IntoRing impls) are regenerated on "
                "every run and the theorems C13_gen_* are proved over the generated definitions; the pre-repair models of F01-F03 stay "
                "refuted (F03 also at word level). Tie to the code: every operation of the harness is compared with the extracted "
-               "specification (verdict) and with both extracted as-is models (fidelity statistic) on generated inputs.")
+               "specification (verdict) and with all extracted as-is models (fidelity statistic) on generated inputs, on the 64-bit build and "
+               "(round 5) on the force_bits=32 build with the models evaluated at w = 32 (proved for every w >= 8: C13_wrun_*, C13_whrun_*); "
+               "the bodies of the in-place kernels of add.rs, of is_valid / Clone of repr.rs and of reduce_once / reduce_negate / add / dbl / "
+               "sub / neg of reducer.rs, the tail of inv_large and the window read of large::pow are regenerated on every run and proved equal to "
+               "the hand models (C13_gen_bodies, C13_gen_clone, C13_gen_reducer, C13_gen_inv_tail, C13_gen_pow_window).")
 TRUSTED_BASE = [
     "Coq 8.16.1 kernel (coqc; vm_compute only in closed Examples and in the stated finite domain of C13_gen_window_table: bit lengths 2..4096)",
     "extraction: ExtrOcamlBasic + ExtrOcamlZBigInt + the Extract Constant directives of coq/extract/FastZ.v",
@@ -141,6 +268,9 @@ TRUSTED_BASE = [
     "word loops inside gcd_ext_in_place (lehmer_step, lehmer_ext_step, cofactor buffer slices) are C12's subject, not modelled here",
     "that the Gallina transcriptions (ModRingModel.v, ModRingWords.v, ModRingConv.v, ModRingNumModularDefs.v, ModRingGcdSmall.v, ModRingReducerWords.v, GrlLehmer.v; C01's RingMul.v, C02's DivWordModel.v / "
     "DivNumModular.v) say what the Rust sources say - checked by the correspondence run, and for the regenerated fragments by "
+    "tools/translate_c13_r5.py (statement compiler over the parser of tools/translate_c01_r4.py for modular/{add,repr,reducer,div,pow}.rs: the kernels of "
+    "add.rs / shift.rs / cmp.rs called there are atoms = the hand models of DivWordModel.v, ring.normalized_divisor / ring.shift / x.0 are read "
+    "as the word list / shift / word list, carry flags as 0 / 1, UBig as its value, `x.0.iter().all(|w| *w == 0)` as all_zero) and "
     "tools/translate_c13_r3.py (regex / tiny expression grammar over modular/{pow,add,mul,repr,reducer,convert}.rs; the reading of `<<` as a "
     "multiplication by a power of two, of usize arithmetic as exact, of WORD_BITS.min(usize::BIT_SIZE) as the word size are hand-written semantics); "
     "primitive machine arithmetic at its mathematical meaning",
@@ -148,7 +278,7 @@ TRUSTED_BASE = [
 ]
 ASSUMPTIONS = [
     "UBig::from_words / as_words / IBig::from_parts transport values faithfully (used by the harness instead of any parser)",
-    "64-bit words in the correspondence run (the Coq model is parametric in the word size)",
+    "64-bit and 32-bit words in the correspondence run (default build and force_bits=\"32\"; the Coq models are parametric in the word size and proved for every w >= 8)",
     "pointer identity of ConstDivisor instances is modelled by an integer identity",
 ]
 
@@ -168,14 +298,14 @@ def gen_modulus(rng, tier):
         return max(1, (1 << e) + rng.choice([-1, 1, -3, 3, -59, 13]))
     if k < 9:
         # single word: any bit length (shift = 64 - bits), incl. top bit set (shift 0)
-        bits = rng.choice([1, 2, 3, 8, 16, 31, 32, 33, 62, 63, 64, 64, 64, rng.range(1, 64)])
+        bits = rng.choice([1, 2, 3, 8, 16, 31, 32, 33, 62, 63, 64, 64, 64, rng.range(1, 64)]) if W == 64 else rng.choice([1, 2, 3, 8, 16, W - 2, W - 1, W, W, W, rng.range(1, W), rng.range(1, W), rng.range(1, W), rng.range(1, W)])
         return rng.bits(bits) | (1 << (bits - 1)) | (rng.below(2))
     if k < 14:
         # double word
-        bits = rng.choice([65, 66, 96, 100, 127, 128, 128, 128, rng.range(65, 128)])
+        bits = rng.choice([65, 66, 96, 100, 127, 128, 128, 128, rng.range(65, 128)]) if W == 64 else rng.choice([W + 1, W + 2, 2 * W - 1, 2 * W, 2 * W, rng.range(W + 1, 2 * W), rng.range(W + 1, 2 * W), rng.range(W + 1, 2 * W)])
         v = rng.bits(bits) | (1 << (bits - 1))
         if rng.chance(1, 5):
-            v &= ~((1 << 64) - 1)  # low word zero
+            v &= ~((1 << W) - 1)  # low word zero
             v |= 1 << (bits - 1)
         return v
     # multi-word
@@ -184,7 +314,7 @@ def gen_modulus(rng, tier):
     if r == 0:
         v = gen_mag(rng, n)
     else:
-        top = rng.choice([1, 2, 3, 62, 63, 64, 64, rng.range(1, 64)])  # bits in the top word; 64 = no shift
+        top = rng.choice([1, 2, 3, W - 2, W - 1, W, W, rng.range(1, W)])  # bits in the top word; W = no shift
         bits = (n - 1) * W + top
         v = rng.bits(bits) | (1 << (bits - 1))
         if r == 1:
@@ -218,7 +348,7 @@ def gen_operand(rng, m, tier, other=None):
         v = gen_mag(rng, rng.choice([max(0, nw - 1), nw, nw + 1, 2 * nw - 1, 2 * nw, 2 * nw + 1]))
     elif k == 7:
         # two-word values with a large high word (the 2by1 division precondition)
-        v = (rng.choice([(1 << 64) - 1, 1 << 63, m & ((1 << 64) - 1), (m + 1) & ((1 << 64) - 1), rng.bits(64)]) << 64) | rng.bits(64)
+        v = (rng.choice([(1 << W) - 1, 1 << (W - 1), m & ((1 << W) - 1), (m + 1) & ((1 << W) - 1), rng.bits(W)]) << W) | rng.bits(W)
     elif k == 8:
         v = rng.bits(rng.choice([8, 32, 63, 64, 65, 127, 128, 129, 192]))
     elif k == 10 and nw >= 3:
@@ -304,9 +434,9 @@ def gcd_shape_operand(rng, m):
         q = rng.choice([2, 3, (1 << 63) - 1, 1 << 63, (1 << 63) + 1, (1 << 64) - 1, 1 << 64, (1 << 64) + 1, rng.bits(64) | 1])
         v = m // q + rng.choice([0, 1, -1, rng.bits(32)])                  # first quotient q
     elif k == 3:
-        v = rng.bits(max(130, nb - W * rng.range(1, 3)))                   # one to three words shorter
+        v = rng.bits(max(2 * W + 2, nb - W * rng.range(1, 3)))                   # one to three words shorter
     elif k == 4:
-        v = rng.bits(rng.range(129, 192)) | (1 << 128)                     # exactly three words: the Lehmer loop ends soon
+        v = rng.bits(rng.range(2 * W + 1, 3 * W)) | (1 << (2 * W))                     # exactly three words: the Lehmer loop ends soon
     elif k == 5:
         v = (m >> 1) + rng.choice([0, 1, -1, rng.bits(W), -rng.bits(W)])   # quotient 2, remainder small
     elif k == 6:
@@ -322,9 +452,9 @@ def gcd_shape_operand(rng, m):
 
 def ctor_for(rng, m):
     c = ["n", "n"]
-    if m < (1 << 64):
+    if m < (1 << W):
         c.append("w")
-    if m < (1 << 128):
+    if m < (1 << (2 * W)):
         c.append("d")
     return rng.choice(c)
 
@@ -337,11 +467,11 @@ PRIMS = {"bool": (0, 1), "u8": (0, 255), "u16": (0, 65535), "u32": (0, (1 << 32)
 
 def shift_of(m):
     nb = m.bit_length()
-    if nb <= 64:
-        return 64 - nb
-    if nb <= 128:
-        return 128 - nb
-    return (-nb) % 64
+    if nb <= W:
+        return W - nb
+    if nb <= 2 * W:
+        return 2 * W - nb
+    return (-nb) % W
 
 
 # ---------------------------------------------------------------------------------------------
@@ -380,6 +510,15 @@ def top2(rng, bits):
 
 def class_bits(rng, cls, tier):
     """bit length of a modulus of the ring class"""
+    if W != 64:
+        if cls == "single-aligned":
+            return W
+        if cls == "single-shifted":
+            return rng.choice([2, 3, 8, W - 2, W - 1, rng.range(2, W - 1), rng.range(2, W - 1)])
+        if cls == "double-aligned":
+            return 2 * W
+        if cls == "double-shifted":
+            return rng.choice([W + 1, W + 2, 2 * W - 2, 2 * W - 1, rng.range(W + 1, 2 * W - 1), rng.range(W + 1, 2 * W - 1)])
     if cls == "single-aligned":
         return 64
     if cls == "single-shifted":
@@ -391,7 +530,7 @@ def class_bits(rng, cls, tier):
     n = rng.choice([3, 3, 3, 4, 4, 5, 6, 7, 8, 9, 16, 17, 32, 33] + ([48, 64, 100] if tier == "thorough" else []))
     if cls == "large-aligned":
         return n * W
-    return (n - 1) * W + rng.choice([1, 2, 3, 32, 62, 63, rng.range(1, 63)])
+    return (n - 1) * W + (rng.choice([1, 2, 3, 32, 62, 63, rng.range(1, 63)]) if W == 64 else rng.choice([1, 2, 3, W // 2, W - 2, W - 1, rng.range(1, W - 1), rng.range(1, W - 1)]))
 
 
 def split_bits(rng, nb):
